@@ -41,8 +41,10 @@ RULE = ("scenario = fit on a training series with integer index (RangeIndex or I
 TRUSTED = [
     "translator/series_c13.py + translator/symex_c13.py (fail-closed): the anchored methods are "
     "EVALUATED symbolically (data flow: locals substituted, private helpers of the same file "
-    "inlined with argument binding, guard clauses == if/else, conditional expressions, list-building "
-    "loops == comprehensions, negations normalised, conditionals lifted, dict dispatch on the two "
+    "inlined with argument binding by call graph from the public entry points - no helper is looked "
+    "up by name -, guard clauses == if/else == conditional expressions compared as canonical "
+    "decision trees, list-building / index loops == comprehensions, negation normal form, "
+    "positional == keyword arguments from the callee definitions in /repo, dict dispatch on the two "
     "model literals, raising branches = invalid input dropped, check_series/check_sp/"
     "check_is_fitted = identity on valid input) into the term they return plus the attribute "
     "writes they perform, and Gen.v is generated from those terms: _get_duration under 'y given, x "
